@@ -93,7 +93,7 @@ def run(params, chooser, memo=None):
     wrap.URLTableHookWrapper.check_out = check_out
     try:
         ar = AppRun(site, argv, chooser, strategy=strategy, early=False,
-                    horizon=params.get('horizon', 60000))
+                    horizon=params.get('horizon', 25000))
         out = ar.run()
     finally:
         wrap.URLTableHookWrapper.check_out = orig_co
@@ -179,7 +179,7 @@ def jobs(tier, seed):
         js.append(dict(params=dict(max_redirect=mr, tries=tries, depth=depth), prefix=[]))
     for ans in MENU[1:]:
         js.append(dict(params=dict(max_redirect=20, tries=20, depth=0, always=ans,
-                                   horizon=400000), prefix=[]))
+                                   horizon=150000), prefix=[]))
         js.append(dict(params=dict(max_redirect=3, tries=4, depth=0, always=ans), prefix=[]))
     if seed:
         k = seed % len(js)
